@@ -93,6 +93,11 @@ class _NoSched(object):
         assert pred(), 'process wait would block'
 
 
+# client observations per (task, buffered notifications): many quiescent
+# states of a scenario hold the same notifications for a task
+_client_cache = dict()
+
+
 class ProcHost(object):
     '''what the process / launcher fakes of c07_executor expect of a world'''
 
@@ -298,6 +303,18 @@ class Pipe(c11.World):
         if self.qlen(rpc.AGENT_STAGING_OUTPUT_QUEUE): ev.append(('q', 'agent_out'))
         if self.qlen(rpc.AGENT_COLLECTING_QUEUE)    : ev.append(('q', 'a0_out'))
         if self.qlen(PROXY_OUT)                      : ev.append(('q', 'tmgr_out'))
+        # the queue bridge buffers single things and serves up to a bulk of
+        # them per request: two separate puts may arrive as one bulk
+        QN = {'tmgr_sched': rpc.TMGR_SCHEDULING_QUEUE,
+              'tmgr_in'   : rpc.TMGR_STAGING_INPUT_QUEUE,
+              'agent_in'  : rpc.AGENT_STAGING_INPUT_QUEUE,
+              'sched'     : rpc.AGENT_SCHEDULING_QUEUE,
+              'exec'      : rpc.AGENT_EXECUTING_QUEUE,
+              'agent_out' : rpc.AGENT_STAGING_OUTPUT_QUEUE,
+              'tmgr_out'  : PROXY_OUT}
+        for name in scn.get('merge_at') or []:
+            if self.qlen(QN[name]) >= 2:
+                ev.append(('qq', name))
         if not self.ex._watch_queue.empty() or \
            any(t.get('proc') is not None and t['proc'].code is not None
                for t in self.to_watch):
@@ -355,6 +372,17 @@ class Pipe(c11.World):
                                    self.net.q_get(rpc.AGENT_COLLECTING_QUEUE))
             else:
                 self.work_cb(name)
+        elif kind == 'qq':
+            QN = {'tmgr_sched': rpc.TMGR_SCHEDULING_QUEUE,
+                  'tmgr_in'   : rpc.TMGR_STAGING_INPUT_QUEUE,
+                  'agent_in'  : rpc.AGENT_STAGING_INPUT_QUEUE,
+                  'sched'     : rpc.AGENT_SCHEDULING_QUEUE,
+                  'exec'      : rpc.AGENT_EXECUTING_QUEUE,
+                  'agent_out' : rpc.AGENT_STAGING_OUTPUT_QUEUE,
+                  'tmgr_out'  : PROXY_OUT}
+            q = self.net.queues[QN[ev[1]]]
+            q[0:2] = [q[0] + q[1]]
+            self.work_cb(ev[1])
         elif kind == 'loop':
             c = self.sched_child
             c._term.left = 2
@@ -507,12 +535,14 @@ class Pipe(c11.World):
                 client, len(self.submitted), self.cancel_sent)
 
     # ----------------------------------------------------------------------
-    def client_outcomes(self, limit=200000):
+    def client_outcomes(self, limit=200000, drops=1):
         '''
         all delivery orders (across publishers, FIFO per publisher) of the
         buffered state notifications to the TaskManager.  Notifications for
         different tasks act on different Task objects and commute, so the
-        orders are enumerated per task (messages naming several tasks are
+        orders are enumerated per task.  The state channel may lose messages
+        (that is why the client fills in skipped states): up to `drops`
+        non-final notifications per task are dropped, at every position (messages naming several tasks are
         split; batch effects are C06's subject).  Returns a set of
         (finals, log) observations where finals = ((uid, state, exit_code,
         has_exception), ...) and log = ((uid, announced state), ...).
@@ -531,14 +561,18 @@ class Pipe(c11.World):
                 if msgs:
                     fifos.append(msgs)
             task = tm._tasks[uid]
+            ckey = (uid, task.state, drops, repr(fifos))
+            if ckey in _client_cache:
+                per_uid[uid] = _client_cache[ckey]
+                continue
             log  = list()
             tm._callbacks[rpc.TASK_STATE]['*'] = {
                 0: {'cb': lambda t, s: log.append(s), 'cb_data': None}}
             seen = set()
             n    = [0]
 
-            def rec(pos):
-                key = (pos, task.state, tuple(log))
+            def rec(pos, dropped=0):
+                key = (pos, task.state, tuple(log), dropped)
                 if key in seen:
                     return
                 seen.add(key)
@@ -557,17 +591,23 @@ class Pipe(c11.World):
                                              seams.wire(f[pos[i]]))
                         except Exception as e:
                             log.append('exception:%r' % e)
-                        rec(pos[:i] + (pos[i] + 1,) + pos[i + 1:])
+                        rec(pos[:i] + (pos[i] + 1,) + pos[i + 1:], dropped)
                         task.__dict__.clear()
                         task.__dict__.update(snap)
                         tm._task_info[uid] = info
                         del log[nlog:]
+                        if dropped < drops and \
+                           f[pos[i]]['arg'][0]['state'] not in rps.FINAL:
+                            # this notification never arrives
+                            rec(pos[:i] + (pos[i] + 1,) + pos[i + 1:],
+                                dropped + 1)
                 if done:
                     results.add(((uid, task.state, task.exit_code,
                                   task.exception is not None), tuple(log)))
 
             rec(tuple(0 for _ in fifos))
             per_uid[uid] = results
+            _client_cache[ckey] = results
 
         # combine: one observation per combination would multiply; the oracle
         # is per task, so return per-task observations padded to the common
